@@ -51,7 +51,7 @@ func init() {
 	})
 	register(&Prop{
 		ID: "C12",
-		Rules: []*Rule{{Name: "R-TAINT/redactable", Doc: "a text the library declares safe stays safe as a whole: conversions to redact.RedactableString take only strings that were built as redactable - a constant message relabelled by a cast has the parts between marker runes treated as unsafe and redacted away", Run: func(c *core.Ctx) { runTaintFiltered(c, func(s *Sink) bool { return s.Mode == "redactable" }) }}, rFmtProbeOrder, rDepth, scoped(rFormatArg, "a constant message is stored as it is, never interpreted as a format", func(_ *core.Ctx, k string) bool { return containsAny(k, "errutil.") }), rOwnedBranches, rArgUsed, forwardScoped("WithSafeDetails", "GetAllSafeDetails", "GetSafeDetails", "WithTelemetry", "WithDomain", "New*", "Errorf", "Wrap*", "WithMessage*"), rPassThroughGuard, scoped(rEffect, "read-only operations (accessors, SafeDetails, report building) never rewrite what an error carries as safe details", func(_ *core.Ctx, k string) bool {
+		Rules: []*Rule{rDetailsOrder, {Name: "R-TAINT/redactable", Doc: "a text the library declares safe stays safe as a whole: conversions to redact.RedactableString take only strings that were built as redactable - a constant message relabelled by a cast has the parts between marker runes treated as unsafe and redacted away", Run: func(c *core.Ctx) { runTaintFiltered(c, func(s *Sink) bool { return s.Mode == "redactable" }) }}, rFmtProbeOrder, rDepth, scoped(rFormatArg, "a constant message is stored as it is, never interpreted as a format", func(_ *core.Ctx, k string) bool { return containsAny(k, "errutil.") }), rOwnedBranches, rArgUsed, forwardScoped("WithSafeDetails", "GetAllSafeDetails", "GetSafeDetails", "WithTelemetry", "WithDomain", "New*", "Errorf", "Wrap*", "WithMessage*"), rPassThroughGuard, scoped(rEffect, "read-only operations (accessors, SafeDetails, report building) never rewrite what an error carries as safe details", func(_ *core.Ctx, k string) bool {
 			return containsAny(k, "SafeDetails", "safeDetails", "tags", "keys", "details")
 		}), rRetain, rErrRefs, rHideKeep, rLoopAlias, rAlwaysWraps, rMemo, scoped(rStdIdentity, "formatting and reporting code", func(_ *core.Ctx, k string) bool {
 			return containsAny(k, "errutil.", "errbase.", "report.", "withstack.", "safedetails.", "barriers.", "secondary.")
@@ -85,7 +85,7 @@ func init() {
 	})
 	register(&Prop{
 		ID:    "C02",
-		Rules: []*Rule{scoped(rWalkMulti, "the encoder walk: every branch of a multi-cause node is encoded through EncodeError", func(_ *core.Ctx, k string) bool { return containsAny(k, "EncodeError") }), rErrnoTable, rGenericMsg, rMigration, rTypeNameRaw, rKeyMarker, scoped(rCodec, "identity-relevant fields: those Error() reads, explicit marks, domains", codecIdentityFields), rRegType, rDecodeResult, rDecline, rOpaque, rTypeKeyWho, rMarkLayers, rTreeRec, rSep, scoped(rShape, "the opaque types (the text an unknowing process contributes to identity)", func(_ *core.Ctx, k string) bool { return strings.Contains(k, "opaque") }), scoped(rFormatArg, "encoders, decoders and the opaque types", func(_ *core.Ctx, k string) bool { return containsAny(k, ".decode", ".encode", "opaque") }), scoped(rStdIdentity, "identity tests", func(_ *core.Ctx, k string) bool { return containsAny(k, "errors.Is", "errors.As") }), scoped(rAlwaysWraps, "Mark: the portable mark is always attached", func(_ *core.Ctx, k string) bool { return strings.Contains(k, "Mark(") })},
+		Rules: []*Rule{rMarkEquals, scoped(rWalkMulti, "the encoder walk: every branch of a multi-cause node is encoded through EncodeError", func(_ *core.Ctx, k string) bool { return containsAny(k, "EncodeError") }), rErrnoTable, rGenericMsg, rMigration, rTypeNameRaw, rKeyMarker, scoped(rCodec, "identity-relevant fields: those Error() reads, explicit marks, domains", codecIdentityFields), rRegType, rDecodeResult, rDecline, rOpaque, rTypeKeyWho, rMarkLayers, rTreeRec, rSep, scoped(rShape, "the opaque types (the text an unknowing process contributes to identity)", func(_ *core.Ctx, k string) bool { return strings.Contains(k, "opaque") }), scoped(rFormatArg, "encoders, decoders and the opaque types", func(_ *core.Ctx, k string) bool { return containsAny(k, ".decode", ".encode", "opaque") }), scoped(rStdIdentity, "identity tests", func(_ *core.Ctx, k string) bool { return containsAny(k, "errors.Is", "errors.As") }), scoped(rAlwaysWraps, "Mark: the portable mark is always attached", func(_ *core.Ctx, k string) bool { return strings.Contains(k, "Mark(") })},
 		Explain: "Identity = (Error() text, chain of (family name, extension)). Decides that every identity-relevant field has slot agreement (incl. withMark's explicit mark and withDomain's extension), decoders rebuild the key's type, unknowing hops keep and re-emit the received names, every consumer of identity goes through getTypeDetails with the full mark where the extension matters, and a mark has one full type mark per layer. " +
 			"NOT decided: that text is preserved (C01's undecided part), semantics of foreign Is methods, 'never starts matching' over all pairs.",
 		Trusted: []string{"go/ssa"},
@@ -101,7 +101,7 @@ func init() {
 	})
 	register(&Prop{
 		ID: "C07",
-		Rules: []*Rule{rBarrierFresh, rArgNotCause, scoped(rNil, "WithSecondaryError with a nil primary error returns nil: the secondary error never becomes the result itself", func(_ *core.Ctx, k string) bool { return containsAny(k, "WithSecondaryError") }), rMarkLayers, rArgUsed, forwardScoped("Handled*", "Opaque", "HandleAsAssertionFailure*", "NewAssertionErrorWithWrappedErrf", "WithSecondaryError", "CombineErrors", "Mark"), rDomainGetter, scoped(rWriteFaithful, "the renderer gives back every newline it takes (Handled computes its message through it)", func(_ *core.Ctx, k string) bool { return strings.Contains(k, "separator") }), scoped(rDetailPrint, "the hidden errors of barriers and secondary-error wrappers are printed, as values, in the verbose rendering", func(_ *core.Ctx, k string) bool { return containsAny(k, "maskedErr", "secondaryError") }), rHide, rHideKeep, rBarrierCtor, rWrapDual, rErrRefs, rFormatArg, rSecondaryAttach, scoped(rRegType, "the barrier and secondary-error types", func(_ *core.Ctx, k string) bool { return containsAny(k, "barriers.", "secondary.") }), {Name: "R-CODEC", Doc: rCodec.Doc + " (restricted to the barrier and secondary-error types)", Run: func(c *core.Ctx) {
+		Rules: []*Rule{scoped(rCodeGetter, "a code accessor reads the code from the layer that carries it, never from the safe details relayed by a barrier or secondary-error wrapper", nil), rBarrierFresh, rArgNotCause, scoped(rNil, "WithSecondaryError with a nil primary error returns nil: the secondary error never becomes the result itself", func(_ *core.Ctx, k string) bool { return containsAny(k, "WithSecondaryError") }), rMarkLayers, rArgUsed, forwardScoped("Handled*", "Opaque", "HandleAsAssertionFailure*", "NewAssertionErrorWithWrappedErrf", "WithSecondaryError", "CombineErrors", "Mark"), rDomainGetter, scoped(rWriteFaithful, "the renderer gives back every newline it takes (Handled computes its message through it)", func(_ *core.Ctx, k string) bool { return strings.Contains(k, "separator") }), scoped(rDetailPrint, "the hidden errors of barriers and secondary-error wrappers are printed, as values, in the verbose rendering", func(_ *core.Ctx, k string) bool { return containsAny(k, "maskedErr", "secondaryError") }), rHide, rHideKeep, rBarrierCtor, rWrapDual, rErrRefs, rFormatArg, rSecondaryAttach, scoped(rRegType, "the barrier and secondary-error types", func(_ *core.Ctx, k string) bool { return containsAny(k, "barriers.", "secondary.") }), {Name: "R-CODEC", Doc: rCodec.Doc + " (restricted to the barrier and secondary-error types)", Run: func(c *core.Ctx) {
 			runCodec(c, func(cp *codecPair) bool { return containsAny(cp.Name, "barriers.", "secondary.") })
 		}}, {Name: "R-TAINT/redactable", Doc: "the hidden message of a barrier is carried as a redactable string: conversions to redact.RedactableString in package barriers (and what its decoders receive) only from strings that were built as redactable - a plain string relabelled as redactable, or a redactable one escaped again, changes the message text after a hop", Run: func(c *core.Ctx) {
 			runTaintFiltered(c, func(s *Sink) bool { return s.Mode == "redactable" && strings.Contains(s.Name, "barriers.") })
@@ -141,7 +141,7 @@ func init() {
 	})
 	register(&Prop{
 		ID: "C13",
-		Rules: []*Rule{rEncDispatch, rVisitAll, rJoinFilter, rMultiUncond, rJoinElements, rWalkMulti, rTreeRec, scoped(rOpaque, "the causes of multi-cause nodes", func(_ *core.Ctx, k string) bool {
+		Rules: []*Rule{rElide, rEncDispatch, rVisitAll, rJoinFilter, rMultiUncond, rJoinElements, rWalkMulti, rTreeRec, scoped(rOpaque, "the causes of multi-cause nodes", func(_ *core.Ctx, k string) bool {
 			return containsAny(k, "causes", "MultierrorCauses", "opaqueLeafCauses")
 		}), rOwnedBranches, rLoopAlias, rJoinNode, rDecodeNonNil, scoped(rProtocol, "multi-cause errors are leaves for UnwrapOnce", func(_ *core.Ctx, k string) bool {
 			return containsAny(k, "UnwrapOnce", "UnwrapMulti", "Unwrap() []error")
@@ -161,7 +161,7 @@ func init() {
 	})
 	register(&Prop{
 		ID: "C08",
-		Rules: []*Rule{rWalkFull, rIsAnyNil, rTypeNameRaw, scoped(rOpaque, "a received layer keeps the family name it came with (getTypeDetails of the opaque types)", func(_ *core.Ctx, k string) bool { return strings.Contains(k, "getTypeDetails") }), scoped(rEffect, "Is/IsAny are pure functions of their arguments: no package-level memo of marks", func(_ *core.Ctx, k string) bool { return containsAny(k, "markers.", "getMark", "Mark") }), rKeyMarker, rCmpGuard, {Name: "R-BOUNDS", Doc: rBounds.Doc + " (restricted to package markers: equalMarks' lock-step indexing is also the 'difference in chain length makes them different' clause)",
+		Rules: []*Rule{rMarkEquals, rWalkFull, rIsAnyNil, rTypeNameRaw, scoped(rOpaque, "a received layer keeps the family name it came with (getTypeDetails of the opaque types)", func(_ *core.Ctx, k string) bool { return strings.Contains(k, "getTypeDetails") }), scoped(rEffect, "Is/IsAny are pure functions of their arguments: no package-level memo of marks", func(_ *core.Ctx, k string) bool { return containsAny(k, "markers.", "getMark", "Mark") }), rKeyMarker, rCmpGuard, {Name: "R-BOUNDS", Doc: rBounds.Doc + " (restricted to package markers: equalMarks' lock-step indexing is also the 'difference in chain length makes them different' clause)",
 			Run: func(c *core.Ctx) {
 				runBounds(c, func(rel, fn string) bool { return rel == "markers" })
 			}}, rRecover, rNilSafe, rMarkLayers, rCtorCause, rWalkCurrent, rIsMethod, scoped(rWalkMulti, "Is and IsAny range over errbase.UnwrapMulti itself (no derived collection keyed by error values, which may be unhashable)", func(_ *core.Ctx, k string) bool { return strings.Contains(k, "markers.Is") }), rMemo, scoped(rAlwaysWraps, "Mark", func(_ *core.Ctx, k string) bool { return strings.Contains(k, "Mark(") }), scoped(rStdIdentity, "identity tests", func(_ *core.Ctx, k string) bool { return containsAny(k, "errors.Is", "errors.As") }), {Name: "R-LOOP-EXITS", Doc: rLoopExits.Doc, Run: func(c *core.Ctx) {
